@@ -4,6 +4,7 @@
 mod util;
 mod c09;
 mod c05;
+mod c16;
 
 use util::Out;
 
@@ -21,6 +22,7 @@ fn main() {
     match prop {
         "C09" => c09::run(&mut out),
         "C05" => c05::run(&mut out),
+        "C16" => c16::run(&mut out),
         _ => {
             eprintln!("unknown property {prop}");
             std::process::exit(2);
